@@ -81,6 +81,9 @@ func conformantSSO(rng *rand.Rand) *ssoCase {
 	}
 	d.AuthnRequestsSigned = []string{"", "false", "0", "true", "1"}[rng.Intn(5)]
 	c.Want = []string{"", "false", "true", "1"}[rng.Intn(4)]
+	if rng.Intn(4) == 0 {
+		d.EncCert = keys.Get("sp3") // an encryption key listed in front of the signing key
+	}
 	c.SPD = d
 	required := d.AuthnRequestsSigned == "true" || d.AuthnRequestsSigned == "1" || c.Want == "true" || c.Want == "1"
 	c.Signed = required || rng.Intn(2) == 0
